@@ -12,3 +12,14 @@ package scramblesuit
 //@   ensures [C15:state_inv] dhHsInv(hs)
 //@   ensures [C15:consumed_le_received] err == nil ==> 224 <= n && n <= len(resp) && n <= 1532
 //@   ensures [C15:seed_len] err == nil ==> len(seed) == 32
+
+// Session tickets are a cache: whatever a crash left in the ticket file (absent, empty, torn, corrupt,
+// expired entries), loading it must not block start-up - at worst the tickets are forgotten.  Only a
+// read error other than "does not exist" may be reported.
+//@ func loadTicketStore(stateDir) (s, err)
+//@   serves C18 C10
+//@   modifies blocked, now
+//@   opt ignore.safe.overflow
+//@   ensures [C18:undecodable_ticket_file_never_blocks_startup] err != nil ==> READERR(payload(err)) && !NOTEXIST(payload(err))
+//@   ensures (err == nil) == (s != nil)
+//@   ensures [C18:absent_ticket_file_is_fine] !fexists(JOIN(stateDir, "scramblesuit_tickets.json")) ==> err == nil
